@@ -230,6 +230,9 @@ type outcome struct {
 
 var panicSeen int64
 
+// teardownMissed counts connections whose session was not closed within the time limit
+var teardownMissed int64
+
 // runConn plays one case and returns the ordered life-cycle events.
 func runConn(cs *caseT) *outcome {
 	l := &connLog{done: make(chan struct{})}
@@ -244,6 +247,12 @@ func runConn(cs *caseT) *outcome {
 	c, sc, err := ln.Dial2(func(server *vh.Conn) {
 		reg.Put(server, l)
 		server.OnClose = func() { l.add(evT{"ev": "ConnClosed"}); close(l.done) }
+		if cs.Cut == "doa" {
+			// dead on arrival: the peer is gone before the server has served the connection at all (its
+			// very first write, the greeting, fails)
+			l.add(evT{"ev": "Cut"})
+			server.PeerGone()
+		}
 	})
 	if err != nil {
 		panic(err)
@@ -304,6 +313,12 @@ func runConn(cs *caseT) *outcome {
 	case "reset":
 		l.add(evT{"ev": "Cut"})
 		c.InjectPeerReadError(errors.New("read: connection reset by peer"))
+	case "gone":
+		// the peer vanishes altogether: the server's reads end and its writes fail
+		l.add(evT{"ev": "Cut"})
+		c.Close()
+	case "doa":
+		// already cut when the connection was handed to the server
 	default:
 		l.add(evT{"ev": "Cut"})
 		c.CloseWrite()
@@ -317,7 +332,12 @@ func runConn(cs *caseT) *outcome {
 	// the server may close the connection before it tears the session down (BYE): wait until the
 	// teardown has finished as well before taking the snapshot of the events
 	if !o.noEnd {
-		deadline := time.Now().Add(3 * time.Second)
+		wait := 3 * time.Second
+		if atomic.LoadInt64(&teardownMissed) > 10 {
+			// the verdict is settled: a tree on which the teardown never comes must not turn the run into hours
+			wait = 100 * time.Millisecond
+		}
+		deadline := time.Now().Add(wait)
 		for {
 			l.mu.Lock()
 			started, closed := false, false
@@ -333,7 +353,11 @@ func runConn(cs *caseT) *outcome {
 			// NewSession never fails here, so every connection that was accepted gets a session: a
 			// history without NewSession only means that the serve goroutine has not run yet
 			_ = started
-			if closed || time.Now().After(deadline) {
+			if closed {
+				break
+			}
+			if time.Now().After(deadline) {
+				atomic.AddInt64(&teardownMissed, 1)
 				break
 			}
 			time.Sleep(50 * time.Microsecond)
@@ -455,7 +479,10 @@ func cutCases(stride int, rng *rand.Rand) []*caseT {
 		for k := 0; k <= len(t); k++ {
 			cuts := []string{"close"}
 			if stride <= 1 || k%stride == rng.Intn(stride) || k == len(t) {
-				cuts = append(cuts, "quiet-close", "reset")
+				cuts = append(cuts, "quiet-close", "reset", "gone")
+			}
+			if k == 0 {
+				cuts = append(cuts, "doa")
 			}
 			if k%(4*stride) == 0 || k == len(t) {
 				cuts = append(cuts, "server-close")
@@ -532,7 +559,7 @@ func fuzzCases(n int, rng *rand.Rand) []*caseT {
 			}
 			data, label = b, "garbage"
 		}
-		cut := []string{"close", "quiet-close", "reset"}[rng.Intn(3)]
+		cut := []string{"close", "quiet-close", "reset", "gone"}[rng.Intn(4)]
 		cases = append(cases, &caseT{Name: "fuzz", Data: data, Cut: cut, Label: fmt.Sprintf("%s #%d/%s", label, i, cut)})
 	}
 	return cases
